@@ -85,4 +85,44 @@ theorem ref_renameRe {b : Bag} (h : Good b) (ok : Bool) (names : List String) : 
     · rw [← e1]; exact abs_renameRegexp names b
     · rw [← e2, abs_names]; rfl
 
+/-! ### `SetAlphabet` -/
+
+theorem seqs_pairs (b : Bag) : (abs b).rows.map Prod.snd = b.rows.map (·.seq) := by
+  simp [pairs, List.map_map, Function.comp_def]
+
+/-- the decision of `SetAlphabet` as the reference states it -/
+theorem setAlphabetResult_eq (a : Int) (d : Nat) :
+    setAlphabetResult a d =
+      if a == 1 && (d == NUCLEOTIDS || d == BOTH) then some NUCLEOTIDS
+      else if a == 0 && (d == AMINOACIDS || d == BOTH) then some AMINOACIDS else none := by
+  unfold setAlphabetResult
+  by_cases hu : d = UNKNOWN
+  · subst hu; simp [UNKNOWN, NUCLEOTIDS, BOTH, AMINOACIDS]
+  · have : (d == UNKNOWN) = false := by simpa using hu
+    simp only [this, Bool.false_eq_true, if_false]
+    by_cases h1 : a = 1
+    · subst h1; simp [NUCLEOTIDS, AMINOACIDS]
+    · by_cases h0 : a = 0
+      · subst h0; simp [NUCLEOTIDS, AMINOACIDS]
+      · simp [NUCLEOTIDS, AMINOACIDS, h1, h0]
+
+theorem ref_setAlpha {b : Bag} (h : Good b) (a : Int) : Refines b (.setAlpha a) := by
+  intro s' st e
+  simp only [Spec.stepOp, seqs_pairs] at e
+  simp only [Model.stepOp, setAlphabet, setAlphabetResult_eq]
+  have hgood : ∀ x, x ≠ BOTH → Good { b with alphabet := x } := fun x hx =>
+    ⟨h.inv.congr rfl rfl rfl, h.first.transfer rfl rfl, h.rect.congr rfl rfl rfl, fun _ => hx⟩
+  by_cases c1 : (a == 1 && (detectAlphabetBag (b.rows.map (·.seq)) == NUCLEOTIDS || detectAlphabetBag (b.rows.map (·.seq)) == BOTH)) = true
+  · rw [if_pos c1] at e
+    simp only [c1, if_true, Prod.mk.injEq, Option.some.injEq] at e ⊢
+    exact ⟨e.1, by simpa using e.2, hgood _ (by simp [NUCLEOTIDS, BOTH])⟩
+  · rw [if_neg c1] at e
+    by_cases c2 : (a == 0 && (detectAlphabetBag (b.rows.map (·.seq)) == AMINOACIDS || detectAlphabetBag (b.rows.map (·.seq)) == BOTH)) = true
+    · rw [if_pos c2] at e
+      simp only [c1, c2, if_true, Bool.false_eq_true, if_false, Prod.mk.injEq, Option.some.injEq] at e ⊢
+      exact ⟨e.1, by simpa using e.2, hgood _ (by simp [AMINOACIDS, BOTH])⟩
+    · rw [if_neg c2] at e
+      simp only [c1, c2, Bool.false_eq_true, if_false, Prod.mk.injEq, Option.some.injEq] at e ⊢
+      exact ⟨e.1, by simpa using e.2, h⟩
+
 end Gv.Proofs.BagAbs
